@@ -92,7 +92,11 @@ var applyUnit = ev.Unit[ApplyCase]{
 			g.NearMiss = 10
 		}
 		g.Swarm(t)
-		ops := g.Seq(t, doc, ref.Opts{Neg: true}, 1, 8, 0)
+		maxOps := 8
+		if gen.OneIn(t, 15, "longseq") {
+			maxOps = 24
+		}
+		ops := g.Seq(t, doc, ref.Opts{Neg: true}, 1, maxOps, 0)
 		dt, pt := gen.Texts(t, doc, ref.OpsTree(ops), false, "sp")
 		return ApplyCase{Doc: dt, Patch: pt}
 	},
